@@ -84,6 +84,36 @@ static inline float X_ldexp_f32_i32(float x, int32_t e) {
   return (float)((double)x * avm_u2d((uint64_t)(1023 + k) << 52));
 }
 double X_ldexp_f64_i32(double x, int32_t e);   /* no exact model at hand: functions reaching it are undecided */
+/* ---- allocation.  malloc succeeds (the properties do not speak about exhaustion) and returns storage aligned for
+ * max_align_t (16); the residue of the block's address modulo 4096 is a ghost value so that stricter alignments can be
+ * reasoned about: address(p) mod 4096 == (avm_base_mod + offset(p)) mod 4096 for pointers into the last malloc'ed block. */
+size_t avm_base_mod;
+static inline void* X_malloc_sz(size_t n) {
+  void* p = malloc(n);
+  __CPROVER_assume(p != 0);
+  size_t r = nondet_sz();
+  __CPROVER_assume(r < 4096 && r % 16 == 0);
+  avm_base_mod = r;
+  return p;
+}
+static inline void X_free_pvoid(void* p) { free(p); }
+/* std::align(alignment, size, ptr, space) */
+static inline void* X_align_sz_sz_ppvoid_psz(size_t alignment, size_t size, void** ptr, size_t* space) {
+  size_t addr_mod = (avm_base_mod + (size_t)__CPROVER_POINTER_OFFSET(*ptr)) % 4096;
+  size_t pad = (alignment - addr_mod % alignment) % alignment;
+  if (alignment > 4096) { __CPROVER_assert(0, "model: std::align beyond 4096 is not modelled"); }
+  if (size > *space || pad > *space - size) return 0;
+  *ptr = (char*)*ptr + pad;
+  *space -= pad;
+  return *ptr;
+}
+/* _mm_malloc / aligned_alloc: storage aligned as requested */
+static inline void* _mm_malloc(size_t n, size_t align) { void* p = malloc(n); __CPROVER_assume(p != 0); avm_base_mod = 0; (void)align; return p; }
+static inline void _mm_free(void* p) { free(p); }
+static inline void* X_aligned_alloc_sz_sz(size_t align, size_t n) { void* p = malloc(n); __CPROVER_assume(p != 0); avm_base_mod = 0; (void)align; return p; }
+/* prefetch: a hint -- accesses nothing, cannot fault (SDM PREFETCHh: "does not cause exceptions"); the address is not dereferenced */
+#define __builtin_prefetch(p, rw, loc) ((void)(p), (void)(rw), (void)(loc))
+
 /* std::min / std::max on references: the smaller / larger operand, the first one on ties */
 static inline uint32_t* X_min_pu32_pu32(uint32_t* a, uint32_t* b) { return *b < *a ? b : a; }
 static inline uint32_t* X_max_pu32_pu32(uint32_t* a, uint32_t* b) { return *a < *b ? b : a; }
